@@ -5,7 +5,7 @@
 (* strings are exactly those with a shorter encoding of the same value,    *)
 (* and BigNat arithmetic agrees with TLC's native integers where those fit. *)
 (***************************************************************************)
-EXTENDS ScriptNum, TLC
+EXTENDS ScriptNum, ScriptNum4, TLC
 
 CONSTANT MaxLen
 
@@ -13,8 +13,11 @@ VARIABLES b, phase
 vars == <<b, phase>>
 
 \* all byte strings of length <= MaxLen are reached as states (first byte chosen initially, one byte appended per step)
-Init == /\ b \in {<<>>} \cup {<<x>> : x \in 0..255} /\ phase = "grow"
-Next == /\ phase = "grow" /\ Len(b) >= 1 /\ Len(b) < MaxLen
+\* plus the boundary product of 4-byte strings (where the fixed-width formulation has its last case)
+Edge == {0, 1, 127, 128, 129, 254, 255}
+Boundary4 == {<<w, x, y, z>> : w \in Edge, x \in Edge, y \in Edge, z \in Edge}
+Init == /\ b \in {<<>>} \cup {<<x>> : x \in 0..255} \cup Boundary4 /\ phase = "grow"
+Next == /\ phase = "grow" /\ Len(b) >= 1 /\ Len(b) < MaxLen /\ Len(b) < 4
         /\ \E x \in 0..255 : b' = Append(b, x)
         /\ UNCHANGED phase
 Spec == Init /\ [][Next]_vars
@@ -43,4 +46,14 @@ ArithAgrees == Len(b) <= 3 =>
                 /\ IToInt(IDiv(Val, o)) = Native \div IToInt(o)
                 /\ IToInt(IMod(Val, o)) = Native % IToInt(o))
 CastToBoolDef == CastToBool(b) <=> (Val # Zero)
+
+\* The fixed-width formulation that Apalache decides over all strings of <= 4 bytes (spec/ScriptNum4.tla, spec/apalache) IS this codec:
+\* value, minimality verdict and the encoding agree on every string explored here
+By(i) == IF i <= Len(b) THEN b[i] ELSE 0
+Dg(i) == IF i <= Len(Mag(Val)) THEN Mag(Val)[i] ELSE 0
+FixedWidthAgrees ==
+    Len(b) <= 4 =>
+        /\ Val4(Len(b), By(1), By(2), By(3), By(4)) = IToInt(Val)
+        /\ (Minimal4(Len(b), By(1), By(2), By(3), By(4)) <=> IsMinimal(b))
+        /\ Encode(Val) = [i \in 1..EncLen(Dg(1), Dg(2), Dg(3), Dg(4)) |-> EncByte(i, IsNeg(Val), Dg(1), Dg(2), Dg(3), Dg(4))]
 =============================================================================
